@@ -35,7 +35,7 @@ def run(ctx):
     for s in scripts:
         s["near_max"] = s["name"] == "overflow_order"
     out = ctx.path("hist.ndjson")
-    args = {"groups": ["HIST"], "policy": "dfs", "preemption_bound": 3 if quick else 5, "max_runs": 250 if quick else 20000,
+    args = {"groups": ["HIST"], "policy": "dfs", "preemption_bound": ctx.n(3, 5), "max_runs": ctx.n(250, 20000),
             "out": out, "scripts": scripts, "seed": ctx.seed}
     r = ctx.vh("hist", args, timeout=3000)
     for s in r["scripts"]:
@@ -66,14 +66,14 @@ def run(ctx):
     names = [n for n in se.blocks() if n.startswith("f_")]
     if names:
         for workers in (1, 2):
-            rr, out2, a2 = se.controlled(ctx, names, 40 if quick else 2000, workers=workers, tag=f"fees_w{workers}")
+            rr, out2, a2 = se.controlled(ctx, names, ctx.n(40, 2000), workers=workers, tag=f"fees_w{workers}")
             se.report(ctx, rr, a2, "C07", also=("C01", "C02"))
     # the two publication sites must agree: an attempt that read an estimate (multi-version memory OR history) leaves an
     # ESTIMATE in the history, exactly as its writes are published with the estimate flag. Scheduler runs with the history
     # hooks on, validated against Grevm.tla (HE_Record rule of GrevmTrace.tla)
     hist_names = ["f_ben_reader", "rmw3", "dd3", "grow_shrink3"]
     for workers in (2, 3):
-        rr, out3, a3 = se.controlled(ctx, hist_names, 40 if quick else 2000, workers=workers, groups=("SCHED", "HIST"), tag=f"hist_w{workers}")
+        rr, out3, a3 = se.controlled(ctx, hist_names, ctx.n(40, 2000), workers=workers, groups=("SCHED", "HIST"), tag=f"hist_w{workers}")
         se.report(ctx, rr, a3, "C07", also=("C01", "C02"))
         se.validate(ctx, rr, out3, f"trace_hist_w{workers}", workers=workers)
     ctx.assumptions += ["history scripts of spec/beneficiary_scripts.json (3 writers, 1 reader); the decisive validation runs after the predecessors published their last incarnation (as finality requires)",
